@@ -236,6 +236,7 @@ def run_behaviour(prog, states, seed=0):
             if ev.get('kind') == 'op' and ev.get('op') in ('pause', 'resume', 'stop') and ev.get('args'):
                 ev['target_sid'] = ids['wf_rev'].get(ev['args'][0], '')
                 ev['arg'] = ev['args'][1] if len(ev['args']) > 1 else ''
+            engrun.label_ev(ev, ids)
             ev.pop('args', None)
             ev.pop('result', None)
             for a in obs['ax']:
